@@ -301,7 +301,7 @@ def sec_elbo(chk):
             for opts in (dict(trace_log_space="signal", metric_jit=True), dict(trace_log_space="signal", metric_jit=False), dict(trace_log_space="data", metric_jit=True),
                          dict(trace_log_space="data", metric_jit=False), dict(trace_log_space="auto", metric_jit=True)):
                 try:
-                    es, stats = jft.estimate_evidence_lower_bound(lh, samples, min(ndata, nsig), compute_all=True, verbose=False, **opts)
+                    es, stats = jft.estimate_evidence_lower_bound(lh, samples, min(ndata, nsig), compute_all=True, verbose=False, **opts, output_directory=None)
                 except Exception as e:  # noqa: BLE001
                     fails.append(dict(case=f"{lab}, {opts}: {type(e).__name__}: {str(e)[:150]}", detail=""))
                     continue
@@ -324,7 +324,7 @@ def sec_elbo(chk):
                         evals = np.load(os.path.join(d, f"metric_{space}_eigenvalues.npy"))
                         evecs = np.load(os.path.join(d, f"metric_{space}_eigenvectors.npy"))
                         es2, _ = jft.estimate_evidence_lower_bound(lh, samples, nrel, verbose=False, min_lh_eval=-1., resume_eigenvectors=evecs, resume_eigenvalues=evals,
-                                                                  trace_log_space=space)
+                                                                  trace_log_space=space, output_directory=None)
                         if not np.allclose(np.asarray(es2, dtype=float).ravel(), want, rtol=1e-7, atol=1e-8):
                             fails.append(dict(case=f"{lab}: resumed from {evals.size} saved eigen-pairs ({space} space) differs from the one-go result", detail=""))
                     except Exception as e:  # noqa: BLE001
@@ -339,11 +339,11 @@ def sec_elbo(chk):
                 L = np.linalg.cholesky(Minv)
                 rs = np.sqrt(nsig) * np.concatenate([L.T, -L.T])
                 logev = -float(ham(jnp.asarray(m))) - 0.5 * np.linalg.slogdet(M)[1]
-                es, st = jft.estimate_evidence_lower_bound(lh, jft.Samples(pos=jnp.asarray(m), samples=jnp.asarray(rs)), nrel, compute_all=True, verbose=False)
+                es, st = jft.estimate_evidence_lower_bound(lh, jft.Samples(pos=jnp.asarray(m), samples=jnp.asarray(rs)), nrel, compute_all=True, verbose=False, output_directory=None)
                 if not np.isclose(st["elbo_mean"], logev, rtol=1e-9, atol=1e-9):
                     fails.append(dict(case=f"{lab}: samples with the exact posterior moments: ELBO mean {st['elbo_mean']!r} != log-evidence {logev!r}", detail=""))
                 shift = rng.normal(size=nsig) * 0.3
-                es, st = jft.estimate_evidence_lower_bound(lh, jft.Samples(pos=jnp.asarray(m + shift), samples=jnp.asarray(rs)), nrel, compute_all=True, verbose=False)
+                es, st = jft.estimate_evidence_lower_bound(lh, jft.Samples(pos=jnp.asarray(m + shift), samples=jnp.asarray(rs)), nrel, compute_all=True, verbose=False, output_directory=None)
                 gap = logev - st["elbo_mean"]
                 if not (gap > 0 and np.isclose(gap, 0.5 * shift @ M @ shift, rtol=1e-8)):
                     fails.append(dict(case=f"{lab}: shifted expansion point: the ELBO is not below the log-evidence by 1/2 d^T M d", detail=f"gap {gap!r}"))
@@ -387,7 +387,7 @@ def sec_elbo_classic(chk):
             lab = f"{kind} model with {ndata} data points and {nsig} parameters"
             # JAX
             lh = (_linear_model if kind == "linear" else _nonlinear_model)(jft, jnp, R, noise_std, data)
-            es_re, _ = jft.estimate_evidence_lower_bound(lh, jft.Samples(pos=jnp.asarray(pos), samples=jnp.asarray(res)), min(ndata, nsig), compute_all=True, verbose=False)
+            es_re, _ = jft.estimate_evidence_lower_bound(lh, jft.Samples(pos=jnp.asarray(pos), samples=jnp.asarray(res)), min(ndata, nsig), compute_all=True, verbose=False, output_directory=None)
             es_re = np.asarray(es_re, dtype=float).ravel()
             # classic: the same model
             sdom, ddom = ift.UnstructuredDomain(nsig), ift.UnstructuredDomain(ndata)
